@@ -3,6 +3,7 @@ names, Tie-A table theorems) and its exploration function."""
 from __future__ import annotations
 
 import checks_eval as ce
+import checks_text as ct
 
 T = "JPV.Tables."
 
@@ -48,5 +49,25 @@ PROPS = {
         theorems=["JPV.Props.C18_boundary", "JPV.Props.C18_complete", "JPV.Props.C18_raise", "JPV.Props.C18_steps"],
         tables=[T + "env_defaults_model"],
         explore=ce.explore_c18,
+    ),
+    "C05": dict(
+        modules=["JPV.Props.C05"],
+        theorems=["JPV.Props.C05_partial", "JPV.Props.C05_arg_rule"],
+        tables=[T + "builtin_sigs_model", T + "env_defaults_model", T + "token_map_model",
+                T + "function_argument_map_model", T + "exceptions_model"],
+        explore=ct.explore_c05,
+    ),
+    "C08": dict(
+        modules=["JPV.Props.C08", "JPV.Props.C07"],
+        theorems=["JPV.Props.C08_loc", "JPV.Props.C08_loc_nonneg", "JPV.Props.C08_canonical", "JPV.Props.C08_path_normal",
+                  "JPV.Props.C08_unique", "JPV.Props.C07_loc_nonneg", "JPV.Props.C07_index_loc"],
+        tables=[T + "writes_benign"],
+        explore=ct.explore_c08,
+    ),
+    "C19": dict(
+        modules=["JPV.Props.C19"],
+        theorems=["JPV.Props.C19_linecol", "JPV.Props.C19_offset", "JPV.Props.C19_tokens"],
+        tables=[T + "regexes_model", T + "exceptions_model"],
+        explore=ct.explore_c19,
     ),
 }
